@@ -121,6 +121,23 @@ theorem C02_force_iff_corrupt (w : World) (r : WReq) (sr : Bool) (force : Bool)
   all_goals (repeat' split at h)
   all_goals first | (cases h; done) | (injection h with h; subst h; simp)
 
+/-- the group's state for a file is decided by precedence over *all* copy rows of the group's nodes, whatever their
+    order: healthy wins, then suspect, then corrupt.  In particular the state is X (the only state in which a pull is
+    dispatched with `force`, C02_force_iff_corrupt) only if no node of the group holds a copy recorded healthy or
+    awaiting a check. -/
+theorem C02_group_state_precedence (w : World) (g f : Nat) :
+    let cs := w.copies.filter (fun c => c.file == f && w.groupOfNode c.node == some g)
+    (w.groupState g f = .Y ↔ ∃ c ∈ cs, c.has = .Y) ∧
+    (w.groupState g f = .M ↔ (∀ c ∈ cs, c.has ≠ .Y) ∧ ∃ c ∈ cs, c.has = .M) ∧
+    (w.groupState g f = .X ↔ (∀ c ∈ cs, c.has ≠ .Y) ∧ (∀ c ∈ cs, c.has ≠ .M) ∧ ∃ c ∈ cs, c.has = .X) := by
+  intro cs
+  have hdef : w.groupState g f = (if cs.any (·.has == .Y) then Has.Y else if cs.any (·.has == .M) then .M
+      else if cs.any (·.has == .X) then .X else .N) := rfl
+  rw [hdef]
+  generalize cs = l
+  cases a : l.any (·.has == .Y) <;> cases b : l.any (·.has == .M) <;> cases c : l.any (·.has == .X) <;>
+    simp only [List.any_eq_true, List.any_eq_false, beq_iff_eq] at a b c <;> grind
+
 theorem C02_search_never_overwrites (w : World) (r : WReq) (dest : Nat) :
     (w.groupSearch r dest true).2.2 = false ∧ (w.groupSearch r dest true).1.disk = w.disk ∧
     (∀ od, (w.groupSearch r dest od).1.disk = w.disk) := by
